@@ -37,6 +37,48 @@ def written_locs(p):
     return out
 
 
+_FLIP = {ast.Gt: ast.Lt, ast.GtE: ast.LtE}
+
+
+def canon_cond(src, pol):
+    """Canonical (text, polarity) of a guard: not-prefixes folded into the polarity, every order comparison written
+    as 'a < b' (a > b == b < a;  a <= b == not (b < a)), '!=' as negated '==' with sorted sides."""
+    try:
+        e = ast.parse(src, mode="eval").body
+    except SyntaxError:
+        return src, pol
+    while isinstance(e, ast.UnaryOp) and isinstance(e.op, ast.Not):
+        e = e.operand
+        pol = not pol
+    if isinstance(e, ast.Compare) and len(e.ops) == 1:
+        a, op, b = e.left, e.ops[0], e.comparators[0]
+        if isinstance(op, (ast.Gt, ast.GtE)):
+            a, b, op = b, a, _FLIP[type(op)]()
+        if isinstance(op, ast.LtE):
+            a, b, op = b, a, ast.Lt()
+            pol = not pol
+        if isinstance(op, ast.NotEq):
+            op = ast.Eq()
+            pol = not pol
+        if isinstance(op, ast.Eq):
+            a, b = sorted((a, b), key=norm_src)
+        e = ast.Compare(left=a, ops=[op], comparators=[b])
+    return norm_src(e), pol
+
+
+def entry_state(p):
+    """Canonical guards of a path that were evaluated on the state the method was entered with."""
+    out = {}
+    for c, pol in CR.entry_conds(p):
+        k, v = canon_cond(c, pol)
+        out.setdefault(k, v)
+    return out
+
+
+def contradict(dp, dq):
+    return [c for c in dp if c in dq and dp[c] != dq[c]]
+
+
 def check_route(ctx, cls, rule):
     model = ctx.model
     pf, pparams, ppaths, pfns = CR.method_paths(model, cls.name, "pull")
@@ -67,15 +109,14 @@ def check_route(ctx, cls, rule):
     for p, lr in recvs:
         ctx.ob(rule.replace("ROUTE", "ONE") if "ROUTE" in rule else rule, len(lr) == 1, cls.file, rq,
                "learner rewarded on the path [%s]" % cond_txt(p), "%s" % [e[1] for e in lr], rf.lineno)
-    pconds = {c for p, _ in pulls for c, _ in p.conds}
-    rconds = {c for p, _ in recvs for c, _ in p.conds}
+    pconds = {c for p in ppaths for c in entry_state(p)}
+    rconds = {c for p in rpaths for c in entry_state(p)}
     shared = pconds & rconds
-    # (1) designator agreement on consistent pairs
+    # (1) designator agreement on consistent pairs (guards are compared on the state both methods are entered with:
+    # receive_reward sees the state pull left, and (2) shows pull leaves the shared guards' state alone)
     for p, lp in pulls:
         for q, lr in recvs:
-            dp = dict(p.conds)
-            dq = dict(q.conds)
-            if any(c in dq and dq[c] != pol for c, pol in p.conds if c in shared):
+            if contradict(entry_state(p), entry_state(q)):
                 continue
             # both must decide every shared routing guard that the other decides, else they are not comparable:
             L, L2 = lp[0][1], lr[0][1]
@@ -83,12 +124,29 @@ def check_route(ctx, cls, rule):
             ctx.ob(rule, ok, cls.file, cls.name, "pull[%s] / receive_reward[%s]" % (cond_txt(p, shared), cond_txt(q, shared)),
                    "same learner designator %s" % L if ok else
                    "the point comes from %s but the reward of the same round goes to %s" % (L, L2), lr[0][3].lineno)
-    # every routing decision of receive_reward must be a decision pull made too
-    routing_r = set()
-    for q, lr in recvs:
-        for c, pol in q.conds:
-            # conditions evaluated before the learner call on that path
-            routing_r.add(c)
+    # (4) same phase on both sides: a round whose point did not come from a learner must not have its reward forwarded
+    # to one, and a round whose point came from a learner must have its reward forwarded
+    for p in ppaths:
+        rets = [e for e in p.events if e[0] == "ret"]
+        if not rets or any(e[0] == "raise" for e in p.events):
+            continue
+        asked = [e for e in p.events if e[0] == "lpull"]
+        for q in rpaths:
+            if any(e[0] == "raise" for e in q.events):
+                continue
+            fwd = [e for e in q.events if e[0] == "learner"]
+            if bool(asked) == bool(fwd) or contradict(entry_state(p), entry_state(q)):
+                continue
+            if asked:
+                why = ("pull asks %s for the point on [%s] but receive_reward does not forward the reward on [%s], and no guard "
+                       "both methods evaluate separates the two" % (asked[0][1], cond_txt(p), cond_txt(q)))
+            else:
+                why = ("pull returns %s (no learner asked) on [%s] but receive_reward forwards the reward to %s on [%s], and no guard "
+                       "both methods evaluate separates the two" % (rets[0][1], cond_txt(p), fwd[0][1], cond_txt(q)))
+            ctx.violation(rule, cls.file, cls.name, "pull[%s] / receive_reward[%s]" % (cond_txt(p), cond_txt(q)), why,
+                          (fwd[0][3] if fwd else asked[0][3]).lineno)
+    ctx.ob(rule, True, cls.file, cls.name, "phase agreement", "learner-asked pull paths and learner-forwarding receive_reward paths are "
+           "separated from the other paths by guards both methods evaluate on the same state", pf.lineno)
     # (2) pull writes nothing a shared guard reads
     gdeps = set()
     for c in shared:
@@ -118,5 +176,5 @@ def check_route(ctx, cls, rule):
 
 
 def cond_txt(p, only=None):
-    cs = [(c, pol) for c, pol in p.conds if only is None or c in only]
+    cs = [(c, pol) for c, pol in entry_state(p).items() if only is None or c in only]
     return " and ".join("%s%s" % ("" if pol else "not ", c) for c, pol in cs[:4]) or "always"
